@@ -274,6 +274,34 @@ def local_catch_sites(server_tree):
     return sorted(out)
 
 
+def dispatcher_try_per_task(server_tree):
+    """True iff the dispatcher handles the finished tasks one by one, each under its OWN try:
+    `for task in done:` whose first statement is `try: result = task.result()` with an `except errors.PathIOError`
+    clause - so that one task's exception cannot drop the results of the others that finished in the same wake-up"""
+    srv = [n for n in server_tree.body if isinstance(n, ast.ClassDef) and n.name == "Server"][0]
+    disp = [m for m in srv.body if isinstance(m, ast.AsyncFunctionDef) and m.name == "dispatcher"]
+    if len(disp) != 1:
+        raise Unclassified("Server.dispatcher not found")
+    calls = [n for n in ast.walk(disp[0]) if isinstance(n, ast.Call) and isinstance(n.func, ast.Attribute) and n.func.attr == "result"]
+    if not calls:
+        raise Unclassified("dispatcher: no .result() call")
+    ok = False
+    for n in ast.walk(disp[0]):
+        if isinstance(n, ast.For) and isinstance(n.target, ast.Name) and src(n.iter) == "done" and n.body and isinstance(n.body[0], ast.Try):
+            t = n.body[0]
+            if (
+                len(t.body) == 1
+                and isinstance(t.body[0], ast.Assign)
+                and src(t.body[0].value) == n.target.id + ".result()"
+                and any(h.type is not None and "errors.PathIOError" in src(h.type) for h in t.handlers)
+            ):
+                ok = True
+    # every .result() of the dispatcher must be that one: no second place where task outcomes are collected
+    if ok and len(calls) != 1:
+        ok = False
+    return ok
+
+
 def _ordered(node):
     """ast nodes in source order"""
     nodes = [n for n in ast.walk(node) if hasattr(n, "lineno")]
@@ -318,6 +346,7 @@ def generate(src_dir):
     wcalls = worker_file_calls(stree)
     wctx = worker_contexts(stree)
     catches = local_catch_sites(stree)
+    per_task = dispatcher_try_per_task(stree)
 
     def row(c, es):
         return "(" + S(c) + ", [" + "; ".join("(" + S(m) + ", " + slist(ds) + ")" for m, ds in es) + "])"
@@ -338,6 +367,8 @@ def generate(src_dir):
     text += "Definition worker_ctx : list (string * list string) := [" + "; ".join("(" + S(w) + ", " + slist(items) + ")" for w, items in wctx) + "].\n\n"
     text += "(* functions of Server that reach the backend and contain try / with (something that could stop the exception before the dispatcher) *)\n"
     text += "Definition local_catch_sites : list (string * (string * list string)) := [" + "; ".join("(" + S(f) + ", (" + S(k) + ", " + slist(cs) + "))" for f, k, cs in catches) + "].\n\n"
+    text += "(* the dispatcher takes the finished tasks one by one, each `task.result()` under its own try (except errors.PathIOError) *)\n"
+    text += f"Definition dispatcher_try_per_task : bool := {emit.boolean(per_task)}.\n\n"
     text += "(* worker -> file context variable -> methods called on it inside its async with, in source order *)\n"
     text += "Definition worker_file_calls : list (string * list (string * list string)) := [\n  " + ";\n  ".join(row(w, cs) for w, cs in wcalls) + "\n].\n"
     return text
